@@ -303,7 +303,7 @@ func (r *Runner) Run() int {
 			defer func() { <-sem }()
 			results[i] = r.runHarness(j.rel, j.fn, per)
 			hr := results[i]
-			fmt.Fprintf(os.Stderr, "  %-44s paths=%-6d ends=%v findings=%d q=%d %.1fs\n", hr.Name, hr.Report.Paths, hr.Report.Ends, len(hr.Report.Findings), hr.Stats.Solver.Queries, hr.Wall)
+			fmt.Fprintf(os.Stderr, "  %-44s paths=%-6d ends=%v findings=%d q=%d solver=%.1fs wall=%.1fs\n", hr.Name, hr.Report.Paths, hr.Report.Ends, len(hr.Report.Findings), hr.Stats.Solver.Queries, hr.Stats.Solver.Seconds, hr.Wall)
 		}(i, j)
 	}
 	wg.Wait()
